@@ -1,7 +1,8 @@
 (* Extraction for C06: the entry points that are compared pairwise, the
    canonicalisation (shift), and the reader / from_slice outcome functions. *)
 From EP Require Import Base.Bytes Parse.Types Parse.Slices Parse.Cursor Parse.View
-  Parse.HdrModel Parse.HdrView Parse.LaxSlices Equiv.Model Equiv.ModelRead.
+  Parse.HdrModel Parse.HdrView Parse.LaxSlices Parse.HdrLaxModel Equiv.Model Equiv.ModelRead
+  Equiv.ModelLaxIp Equiv.HdrLaxShift Equiv.SllStart.
 From Coq Require Import Extraction ExtrOcamlBasic.
 Extraction Language OCaml.
 Extraction "m_c06.ml"
@@ -12,4 +13,10 @@ Extraction "m_c06.ml"
   LaxIpSlice.from_slice LaxIpv4Slice.from_slice LaxIpv6Slice.from_slice
   IpHeaders.from_slice IpHeaders.from_ipv4_slice IpHeaders.from_ipv6_slice
   view_ipp win_of s_len exts6_len olen mk_slice
-  read_outcome slice_outcome.
+  read_outcome slice_outcome
+  (* LaxPacketHeaders family, Linux SLL start, the _lax struct copies of the IP boundary *)
+  SlicedPacket.from_linux_sll
+  LaxPacketHeaders.from_ethernet LaxPacketHeaders.from_ether_type LaxPacketHeaders.from_ip
+  LaxPacketHeaders.from_linux_sll lh_behind sll_head
+  LaxIpHeaders.from_slice_lax LaxIpHeadersSpecific.from_ipv4_slice_lax
+  LaxIpHeadersSpecific.from_ipv6_slice_lax.
